@@ -224,6 +224,8 @@ ROUTES = {
     "next_llm": ("ask time", ["L"]),
     "next_predef": ("ask help", ["P"]),
     "act_llm": ("ask status", ["L"]),  # flow with a custom dialog action before the LLM message
+    # (Colang 1.0, opt-in: not in pipeline.V1_ROUTES) the flow obtains the text from an LLM-backed action and sends it with `bot $answer`
+    "act_var": ("ask answer", ["L"]),
 }
 NEXT_STEP = {"next_llm": "inform time", "next_predef": "offer help"}
 
@@ -258,8 +260,8 @@ class Session:
 
     def rail_verdict(self, cat, idx, turn, text):
         """accept | reject | rewrite for this invocation."""
-        if cat == "out" and not lineage(text):
-            return "accept"  # refusals / predefined messages are not the checked material
+        if cat == "out" and not lineage(text) and not self.turns[turn].get("out_any_text"):
+            return "accept"  # refusals / predefined messages are not the checked material (turn flag out_any_text: every text is)
         v = self.turns[turn].get(cat, [])
         return v[idx] if idx < len(v) else "accept"
 
@@ -514,6 +516,20 @@ def make_dialog_action(action_name):
 
     dialog_action.__name__ = action_name
     return dialog_action
+
+
+def make_llm_text_action(action_name):
+    """LLM-backed custom action: asks the (scripted) LLM for a text and returns it; the flow sends it with `bot $answer`."""
+
+    async def llm_text_action(llm=None, context=None):
+        from nemoguardrails.actions.llm.utils import llm_call
+
+        entry = {"rail": "dialog", "cat": "dialog", "idx": 1, "text": None, "via": "action", "verdict": "accept"}
+        _enter(action_name, entry)
+        return await llm_call(llm, "VF-ANSWER-ACTION: write the answer for the user.")
+
+    llm_text_action.__name__ = action_name
+    return llm_text_action
 
 
 def make_route_action(action_name):
